@@ -651,6 +651,8 @@ def run_history(seed, scratch: Path, rep: Report, *, nops, weights, checks, conc
                 ch_, _, _ = world.lift()
                 ref_ = world.referenced()
                 fam_ = user['fam']
+                if 'restore' in checks and (ref_ - ch_):
+                    viol('referenced_chunk_missing', f'after an interrupted delete (and a clean) {len(ref_ - ch_)} chunk(s) referenced by a still listed snapshot are gone')
                 if 'exact' in checks and {c for c in ch_ if c[0] == fam_} != {c for c in ref_ if c[0] == fam_}:
                     viol('gc_incomplete', f'after an interrupted delete and a completed clean the family has '
                                           f'{len({c for c in ch_ if c[0] == fam_} - ref_)} unreferenced and {len({c for c in ref_ if c[0] == fam_} - ch_)} missing chunk(s)')
